@@ -186,6 +186,9 @@ func c06Check(g genSpec) ([]byte, string, string) {
 		return out, fmt.Sprintf("%d messages decoded, %d put in", len(got), len(msgs)), "count"
 	}
 	for i := range msgs {
+		if !got[i].IsValid() {
+			return out, fmt.Sprintf("message #%d of %d is a nil pointer in the decoded File", i, len(msgs)), "value"
+		}
 		if msg := c06Compare(got[i], msgs[i]); msg != "" {
 			return out, fmt.Sprintf("message #%d: %s", i, msg), "value"
 		}
@@ -240,6 +243,10 @@ func runC06(w *vx.W) {
 				handle(g, "field-pairs")
 			}
 		}
+	}
+	// long message slices with a field in one message only
+	for _, g := range longSliceSpecs(thorough) {
+		handle(g, "long-message-slices")
 	}
 	// valid strings that end in, start with or consist of U+FFFD (the replacement character is text like any other)
 	for _, gs := range genSlots() {
